@@ -45,7 +45,7 @@ pub fn expand(input: &DeriveInput, trait_name: &'static str) -> Result<TokenStre
         #[automatically_derived]
         impl #impl_generics #trait_path for #input_type #ty_generics #where_clause {
             #[inline]
-            fn #method_ident<I: derive_more::core::iter::Iterator<Item = Self>>(iter: I) -> Self {
+            fn #method_ident<__I: derive_more::core::iter::Iterator<Item = Self>>(iter: __I) -> Self {
                 iter.fold(#identity, #op_path::#op_method_ident)
             }
         }
